@@ -51,6 +51,12 @@ func (m *GroupsModifier) Apply(eng flows.Engine, env envs.Environment, sa flows.
 		return false
 	}
 
+	// archived contacts can't be in static groups either - any group they were added to would be removed again
+	if contact.Status() == flows.ContactStatusArchived && m.modification == GroupsAdd {
+		log(events.NewErrorf("can't add archived contacts to groups"))
+		return false
+	}
+
 	diff := make([]*flows.Group, 0, len(m.groups))
 
 	if m.modification == GroupsAdd {
